@@ -2482,12 +2482,10 @@ func (dsc *dataStoreCommand) setAddWorkerUnlocked(keyName string, memberNames []
 	for _, memberName := range memberNames {
 		_, exists := m.get(memberName)
 		if exists {
-			if flagHasOne(options, SET_NOT_EXIST) {
-				continue
-			}
-		} else {
-			added++
+			// adding a member the set already has changes nothing (and is not a modification for WATCH)
+			continue
 		}
+		added++
 		m.store(memberName, struct{}{})
 		dsc.modifiedUnlocked(keyName)
 	}
